@@ -355,4 +355,7 @@ def run(P, R, tier):
     c07.storage_audit(P, Remap(R, {'C07.WMC.2': 'C09.WMC.3'}))
     # the announced address is stored by the parser: its group move must not scramble it
     c12.parser_rules(P, Remap(R, {'C12.COPY.1': 'C09.COPY.1', 'C12.MPT.2': 'C09.COPY.1', 'C12.MPT.3': 'C09.COPY.1'}))
+    # the text denotes the announced address only if `::` replaces one genuine run of zero groups
+    pf, pout, pposv = c12.printer(P)
+    c12.run_counter(P, Remap(R, {'C12.MPT.1': 'C09.MPT.1'}), pf)
     return EXPLANATION, ASSUMPTIONS
